@@ -835,6 +835,10 @@ class MemorizedFunc(Logger):
         """
         call_id = (self.func_id, self._get_args_id(*args, **kwargs))
 
+        # The value is stored next to the recorded source of the function:
+        # make sure that this record describes the code that is executed.
+        self._check_previous_func_code(stacklevel=3)
+
         # Return the output and the metadata
         return self._call(call_id, args, kwargs)
 
